@@ -13,6 +13,8 @@ mod c08;
 mod c09;
 mod c10;
 mod c16;
+mod c17;
+mod c17_corpus;
 mod serrec;
 mod c20;
 mod c13;
@@ -36,7 +38,7 @@ fn main() {
     }
     // silence the default panic message: panics are caught and reported per case
     if std::env::var_os("VERIF_PANIC").is_none() {
-        std::panic::set_hook(Box::new(|_| {}));
+        std::panic::set_hook(Box::new(|info| util::note_panic(info)));
     }
     let code = match args[1].as_str() {
         "c01" => c01::run(&args[2..]),
@@ -50,6 +52,7 @@ fn main() {
         "c12" => c10::run(&args[2..], "c12"),
         "c20" => c20::run(&args[2..]),
         "c16" => c16::run(&args[2..]),
+        "c17" => { c17::run(&args[2..]); 0 }
         "c16dbg" => { c16::debug_beyond(); 0 }
         "c05" => c05::run(&args[2..]),
         "c03" => c03::run(&args[2..]),
